@@ -112,6 +112,7 @@ func (w *World) loadLocalAliases(verif string) {
 	if json.Unmarshal(b, &rec) != nil {
 		return
 	}
+	w.recLocals = rec
 	fns := w.contractFunctions()
 	var names []string
 	for n := range fns {
